@@ -97,4 +97,7 @@ inline std::ostream &operator << (std::ostream &out, const CPPManifest &manifest
   return out;
 }
 
+// Is the apostrophe at position p of str a digit separator (inside a number)?
+bool cpp_is_digit_separator(const std::string &str, size_t p);
+
 #endif
